@@ -60,6 +60,8 @@ type bbWorld struct {
 	hadConc   bool
 	baselineG int
 	kinds     []string
+
+	scDelivered map[int64]int // per height: suffrage-confirm ballots handed to Vote so far (added for C04)
 }
 
 func newBBWorld(n int, th base.Threshold, localIdx int) *bbWorld {
@@ -362,6 +364,14 @@ func (w *bbWorld) vote(d bbBallotDesc) (built bool, voted bool, err error) {
 	}
 
 	w.history = append(w.history, "vote "+d.String())
+
+	if k.SC {
+		if w.scDelivered == nil {
+			w.scDelivered = map[int64]int{}
+		}
+
+		w.scDelivered[d.Height]++
+	}
 
 	if strings.Contains(d.Kind, "Expel") || strings.HasPrefix(d.Kind, "sc") {
 		w.hadExpel = true
